@@ -5,6 +5,26 @@ from odata_query import ast, exceptions, typing, visitor
 
 log = logging.getLogger(__name__)
 
+# Precedence of the SQL text a node is rendered to; higher binds tighter.
+_PREC_OR = 1
+_PREC_AND = 2
+_PREC_NOT = 3
+_PREC_COMPARISON = 4
+_PREC_ADDITIVE = 5
+_PREC_MULTIPLICATIVE = 6
+_PREC_UNARY = 7
+_PREC_ATOM = 8
+
+# Functions that are rendered as an operator expression rather than a call:
+_FUNCTION_PRECEDENCE = {
+    "contains": _PREC_COMPARISON,  # x LIKE y
+    "startswith": _PREC_COMPARISON,
+    "endswith": _PREC_COMPARISON,
+    "hassubset": _PREC_COMPARISON,  # x = y
+    "indexof": _PREC_ADDITIVE,  # POSITION(...) - 1
+    "concat": _PREC_ADDITIVE,  # x || y
+}
+
 
 class AstToSqlVisitor(visitor.NodeVisitor):
     """
@@ -18,6 +38,42 @@ class AstToSqlVisitor(visitor.NodeVisitor):
     def __init__(self, table_alias: Optional[str] = None):
         super().__init__()
         self.table_alias = table_alias
+
+    def _precedence(self, node: ast._Node) -> int:
+        """
+        Precedence of the SQL expression ``node`` is rendered to.
+        :meta private:
+        """
+        if isinstance(node, ast.BoolOp):
+            return _PREC_OR if isinstance(node.op, ast.Or) else _PREC_AND
+        if isinstance(node, ast.UnaryOp):
+            return _PREC_NOT if isinstance(node.op, ast.Not) else _PREC_UNARY
+        if isinstance(node, ast.Compare):
+            return _PREC_COMPARISON
+        if isinstance(node, ast.BinOp):
+            if isinstance(node.op, (ast.Add, ast.Sub)):
+                return _PREC_ADDITIVE
+            return _PREC_MULTIPLICATIVE
+        if isinstance(node, ast.Call):
+            return _FUNCTION_PRECEDENCE.get(node.func.name.lower(), _PREC_ATOM)
+        return _PREC_ATOM
+
+    def _visit_operand(
+        self, node: ast._Node, parent_precedence: int, or_equal: bool = False
+    ) -> str:
+        """
+        Visit ``node`` as an operand of an operator with ``parent_precedence`` and
+        wrap it in parentheses if it binds less tightly (or, for the right operand
+        of a left-associative operator, equally tightly: ``or_equal``).
+        :meta private:
+        """
+        res = self.visit(node)
+        precedence = self._precedence(node)
+        if precedence < parent_precedence or (
+            or_equal and precedence == parent_precedence
+        ):
+            res = f"({res})"
+        return res
 
     def visit_Identifier(self, node: ast.Identifier) -> str:
         ":meta private:"
@@ -125,8 +181,9 @@ class AstToSqlVisitor(visitor.NodeVisitor):
 
     def visit_BinOp(self, node: ast.BinOp) -> str:
         ":meta private:"
-        left = self.visit(node.left)
-        right = self.visit(node.right)
+        precedence = self._precedence(node)
+        left = self._visit_operand(node.left, precedence)
+        right = self._visit_operand(node.right, precedence, or_equal=True)
         op = self.visit(node.op)
 
         return f"{left} {op} {right}"
@@ -161,15 +218,11 @@ class AstToSqlVisitor(visitor.NodeVisitor):
 
     def visit_Compare(self, node: ast.Compare) -> str:
         ":meta private:"
-        left = self.visit(node.left)
-        right = self.visit(node.right)
+        # In case of a subexpression (boolean logic, a negation, another comparison
+        # or a predicate such as LIKE), wrap it in parentheses
+        left = self._visit_operand(node.left, _PREC_COMPARISON, or_equal=True)
+        right = self._visit_operand(node.right, _PREC_COMPARISON, or_equal=True)
         comparator = self.visit(node.comparator)
-
-        # In case of a subexpression, wrap it in parentheses
-        if isinstance(node.left, (ast.BoolOp, ast.Compare)):
-            left = f"({left})"
-        if isinstance(node.right, (ast.BoolOp, ast.Compare)):
-            right = f"({right})"
 
         #  'eq/ne null' should become 'IS (NOT) NULL' instead of '(!)= NULL'
         if isinstance(node.right, ast.Null):
@@ -199,7 +252,7 @@ class AstToSqlVisitor(visitor.NodeVisitor):
         # x AND y AND z
         if isinstance(node.left, ast.BoolOp) and node.left.op != node.op:
             left = f"({left})"
-        if isinstance(node.right, ast.BoolOp) and node.right.op != node.op:
+        if isinstance(node.right, ast.BoolOp):
             right = f"({right})"
 
         return f"{left} {op} {right}"
@@ -211,11 +264,8 @@ class AstToSqlVisitor(visitor.NodeVisitor):
     def visit_UnaryOp(self, node: ast.UnaryOp) -> str:
         ":meta private:"
         op = self.visit(node.op)
-        operand = self.visit(node.operand)
-
         # In case of a subexpression, wrap it in parentheses
-        if isinstance(node.operand, ast.BoolOp):
-            operand = f"({operand})"
+        operand = self._visit_operand(node.operand, self._precedence(node))
 
         return f"{op} {operand}"
 
